@@ -586,11 +586,14 @@ def label(exp: Expectation, violation, config_label):
             chain.append(s)
             s = s.parent
         below = chain
+    # the item was registered by a code object nested below the scope that owns the line (class body on its
+    # ``class`` line, lambda, generator expression)
     co = violation.get("co") or ""
-    anonymous = co.startswith("<") and co != "<module>"          # lambda / generator expression code object
-    if anonymous and construct in ("def", "class"):
-        anonymous = False
-    out = construct + (">def" if below or anonymous else "")
+    owner_name = "<module>" if scope is None or scope.kind == "module" else scope.name
+    nested_co = bool(co) and co != owner_name and construct not in ("def", "class")
+    out = construct + (">def" if below or nested_co else "")
+    if violation["sig"].endswith(":branch") and anchor[0] == "line" and violation["line"] != anchor[1]:
+        out += "/" + m.construct_at(violation["line"])          # what kind of line carries the predicate
     deco = [c for c in chain if _decorated(c)]
     if anchor[0] == "line" and scope is not None and not chain and _decorated(scope):
         deco = [scope]
